@@ -442,3 +442,115 @@ theorem sctpChunkValue_encoded (v : ChunkValue) (t : Nat) (hfit : v.fitsType t) 
     exact ⟨_, rfl, rfl⟩
 
 end Schc
+
+namespace Schc
+open Bits Spec
+
+theorem paramsWire_nil (ps : List SctpParam) (h : paramsWire ps = []) : ps = [] := by
+  cases ps with
+  | nil => rfl
+  | cons p ps =>
+    have := param_wire_len p
+    have hl : (paramsWire (p :: ps)).length = 0 := by rw [h]; rfl
+    simp only [paramsWire, List.flatMap_cons, List.length_append] at hl
+    omega
+
+/-- an empty value has no fields -/
+theorem value_fields_nil (v : ChunkValue) (hwf : v.Wf) (h : v.wire = []) : v.fields = [] := by
+  cases v with
+  | data tsn sid ssn ppid user =>
+    have := congrArg List.length h
+    simp [ChunkValue.wire, rowsBits, dataRows] at this
+  | init ack tag rwnd os is tsn ps =>
+    have := congrArg List.length h
+    cases ack <;> simp [ChunkValue.wire, rowsBits, initRows] at this
+  | sack cum rwnd gaps dups =>
+    have := congrArg List.length h
+    simp [ChunkValue.wire, rowsBits, sackRows] at this
+  | params ps =>
+    have := paramsWire_nil ps h
+    subst this; rfl
+  | shutdown cum =>
+    have := congrArg List.length h
+    simp [ChunkValue.wire] at this
+  | none => rfl
+  | cookie c => exact absurd h hwf.1
+  | other w =>
+    have hw : w = [] := h
+    simp [ChunkValue.fields, hw]
+
+def chunkHeaderRows (c : SctpChunk) : Rows :=
+  [("SCTP:Chunk Type", 8, c.type), ("SCTP:Chunk Flags", 8, c.flags), ("SCTP:Chunk Length", 16, c.len)]
+
+/-- `_parse_chunk` on an RFC-encoded chunk followed by anything -/
+theorem sctpChunk_encoded (c : SctpChunk) (hw : c.Wf) (rest : Bits) (fuel : Nat) (hf : paramCount c.value ≤ fuel) :
+    ∃ fs, sctpChunk fuel ⟨c.wire ++ rest, .left⟩ = .ok (fs, c.wire.length) ∧ pairs fs = leftPairs c.fields := by
+  obtain ⟨w1, w2, w3, w4, w5⟩ := hw
+  generalize hwl : c.value.wire.length = wl at *
+  have hlen8 : c.len * 8 = 32 + wl := by unfold SctpChunk.len; omega
+  have hwire : c.wire ++ rest = rowsBits (chunkHeaderRows c) ++ (c.value.wire ++ (Bits.zeros (pad32 wl) ++ rest)) := by
+    simp [SctpChunk.wire, chunkHeaderRows, rowsBits, List.append_assoc, hwl]
+  have hcw : c.wire.length = 32 + wl + pad32 wl := by
+    simp only [SctpChunk.wire, List.length_append, ofNat_length, zeros_len, hwl]; omega
+  generalize hB : (⟨c.wire ++ rest, .left⟩ : ABuf) = B
+  have hB' : B = ⟨rowsBits (chunkHeaderRows c) ++ (c.value.wire ++ (Bits.zeros (pad32 wl) ++ rest)), .left⟩ := by rw [← hB, hwire]
+  have hrl : (rowsBits (chunkHeaderRows c)).length = 32 := by rw [rowsBits_length]; rfl
+  have hhdr : pairs (parseFixed Gen.sctpChunkHeaderLayout B) = leftPairs (rowsFields (chunkHeaderRows c)) := by
+    rw [hB']; exact fixed_rows _ _ rfl _
+  have hlenv : (fieldValue (parseFixed Gen.sctpChunkHeaderLayout B) Gen.SCTPF.CHUNK_LENGTH).value = c.len := by
+    rw [fieldValue_pairs, hhdr]
+    show (⟨Bits.ofNat 16 c.len, .left⟩ : ABuf).value = _
+    exact value_ofNat 16 _ _ w5
+  have htyv : (fieldValue (parseFixed Gen.sctpChunkHeaderLayout B) Gen.SCTPF.CHUNK_TYPE).value = c.type := by
+    rw [fieldValue_pairs, hhdr]
+    show (⟨Bits.ofNat 8 c.type, .left⟩ : ABuf).value = _
+    exact value_ofNat 8 _ _ w1
+  have hBl : B.length = 32 + wl + pad32 wl + rest.length := by
+    rw [hB']; simp only [ABuf.length, List.length_append, hrl, zeros_len, hwl]; omega
+  have hcv : B.slice 32 (32 + wl) = ⟨c.value.wire, .left⟩ := by
+    rw [hB']; simp only [ABuf.slice]; congr 1
+    exact slice_mid _ _ _ _ _ hrl.symm (by rw [hrl, hwl])
+  have hcp : B.slice (32 + wl) (32 + wl + pad32 wl) = ⟨Bits.zeros (pad32 wl), .left⟩ := by
+    rw [hB']; simp only [ABuf.slice]; congr 1
+    rw [← List.append_assoc]
+    exact slice_mid _ _ _ _ _ (by simp [hrl, hwl]) (by simp [hrl, hwl, zeros_len])
+  have hpad : (32 - (32 + wl) % 32) % 32 = pad32 wl := by unfold pad32; omega
+  unfold sctpChunk
+  simp only [hlenv, hlen8, bind, Except.bind]
+  have hg : ¬ (B.length < 32 ∨ 32 + wl < 32) := by omega
+  rw [if_neg hg]
+  -- the body
+  have hbody : ∃ bf, sctpChunkBody fuel B (parseFixed Gen.sctpChunkHeaderLayout B) (32 + wl) = .ok bf ∧
+      pairs bf = leftPairs (rowsFields (chunkHeaderRows c)) ++ leftPairs c.value.fields := by
+    unfold sctpChunkBody
+    simp only [Nat.add_sub_cancel_left]
+    by_cases h0 : wl > 0
+    · have hne : c.value.wire ≠ [] := by intro e; rw [e] at hwl; simp at hwl; omega
+      obtain ⟨cf, c1, c2⟩ := sctpChunkValue_encoded c.value c.type w2 w3 hne fuel hf
+      have hsum : sumFieldBits cf = (⟨c.value.wire, .left⟩ : ABuf).length := by
+        rw [sumFieldBits_of_pairs cf _ c2, value_tile]; rfl
+      simp only [h0, if_true, hcv, htyv, c1, bind, Except.bind]
+      have : ¬ (sumFieldBits cf ≠ (⟨c.value.wire, .left⟩ : ABuf).length) := by rw [hsum]; simp
+      rw [if_neg this]
+      exact ⟨_, rfl, by rw [pairs_append, hhdr, c2]⟩
+    · have hnil : c.value.wire = [] := List.eq_nil_of_length_eq_zero (by omega)
+      simp only [h0, if_false, pure, Except.pure]
+      exact ⟨_, rfl, by rw [hhdr, value_fields_nil c.value w3 hnil]; simp⟩
+  obtain ⟨bf, b1, b2⟩ := hbody
+  simp only [b1, hpad, hcp, pure, Except.pure]
+  rw [hcw]
+  refine ⟨_, rfl, ?_⟩
+  unfold SctpChunk.fields
+  have e1 : Gen.SCTPF.CHUNK_PADDING = "SCTP:Chunk Padding" := rfl
+  have hzl : (⟨Bits.zeros (pad32 wl), .left⟩ : ABuf).length = pad32 wl := by simp [ABuf.length, zeros_len]
+  rw [hwl]
+  by_cases hp : pad32 wl > 0
+  · have : pad32 wl > 0 ∧ (⟨Bits.zeros (pad32 wl), .left⟩ : ABuf).length > 0 := ⟨hp, by rw [hzl]; exact hp⟩
+    simp only [this, and_self, if_true, hp, pairs_append, b2, leftPairs_append, e1]
+    simp [pairs, leftPairs, chunkHeaderRows, rowsFields]
+  · have : ¬ (pad32 wl > 0 ∧ (⟨Bits.zeros (pad32 wl), .left⟩ : ABuf).length > 0) := fun h => hp h.1
+    simp only [hp, false_and, if_false, leftPairs_append, List.append_nil]
+    rw [b2]
+    simp [leftPairs, chunkHeaderRows, rowsFields]
+
+end Schc
